@@ -67,6 +67,9 @@ harness! {
     #[kani::unwind(10)]
     fn c18_moves_commute_with_colour_mirror() {
         let raw = ab::any_raw();
+        // the property speaks of valid positions: "the mover's king" must be unique (the reference
+        // takes the first king in square order, which no mirror preserves when there are two)
+        vk::assume(rs::count_code(&raw.cells, rs::code(rs::side_white(&raw), rs::KING)) == 1);
         let m = any_rmove();
         let v = mirror_v(&raw);
         assert!(rs::ref_well_formed(mv_v(m)) == rs::ref_well_formed(m));
@@ -88,6 +91,7 @@ harness! {
     fn c18_moves_commute_with_left_right_mirror() {
         let mut raw = ab::any_raw();
         raw.castling = CastlingRights::EMPTY;
+        vk::assume(rs::count_code(&raw.cells, rs::code(rs::side_white(&raw), rs::KING)) == 1);
         let m = any_rmove();
         let h = mirror_h(&raw);
         let p = rs::ref_pseudo(&raw, m);
